@@ -73,6 +73,13 @@ class Obligation(object):
         self.solvers = solvers            # restrict portfolio (list of names) or None
         self.result = None
 
+    def use(self, lemma):
+        """add a lemma (hyps |- goal) as the hypothesis `hyps => goal`; the runner refuses the result unless
+        the lemma itself is discharged in the same run"""
+        self.hyps.append(tm.implies(tm.and_(*lemma.hyps) if lemma.hyps else tm.TRUE, lemma.goal))
+        self.meta.setdefault("uses", []).append(lemma.name)
+        return self
+
     # -- script ---------------------------------------------------------------
     def script(self, for_solver="cvc5", want_model=True):
         pr = tm.Printer()
